@@ -467,6 +467,7 @@ func TestVerifC23(t *testing.T) {
 	wg.Wait()
 	c23CloseDuringOutage(rep, 2)
 	c23CloseDuringOutage(rep, 5)
+	c23StalledConsumer(rep)
 	if ops, out := c23LostAck(rep); ops != nil {
 		allOps = append(allOps, ops)
 		allImpl = append(allImpl, out)
@@ -587,6 +588,80 @@ func c23CloseDuringOutage(rep *vfReport, nReq int) {
 	rep.Case("close-during-outage", true)
 	rep.CountN("close-during-outage:accepted", accepted)
 	rep.CountN("close-during-outage:left-unapplied-by-shutdown(outside-property)", accepted-len(appliedStmts))
+}
+
+// c23StalledConsumer (directed): during an outage the consumer is stuck retrying request 1,
+// request 2 waits in the queue's one-slot output channel, and request 3 (with wait) is a
+// partial batch whose timer expires while that slot is full. When the outage ends all three
+// must be applied, in order, and the waiter must get 200 - nothing may be stranded.
+func c23StalledConsumer(rep *vfReport) {
+	var mu sync.Mutex
+	var appliedStmts []int
+	calls := 0
+	m := &MockStore{leaderAddr: "127.0.0.1:4002"}
+	c := &mockClusterService{}
+	m.executeFn = func(er *command.ExecuteRequest) ([]*command.ExecuteQueryResponse, uint64, error) {
+		mu.Lock()
+		defer mu.Unlock()
+		calls++
+		if calls <= 2 {
+			return nil, 0, store.ErrLeaderNotFound // ~2 s outage (runQueue sleeps 1 s per failure)
+		}
+		for _, st := range er.Request.Statements {
+			if mm := c23ValRe.FindStringSubmatch(st.Sql); mm != nil {
+				v, _ := strconv.Atoi(mm[1])
+				appliedStmts = append(appliedStmts, v)
+			}
+		}
+		return nil, 0, nil
+	}
+	svc := New("127.0.0.1:0", m, c, proxy.New(m, c), nil)
+	svc.DefaultQueueCap, svc.DefaultQueueBatchSz, svc.DefaultQueueTimeout = 16, 8, 5*time.Millisecond
+	svc.logger.SetOutput(io.Discard)
+	if err := svc.Start(); err != nil {
+		rep.Note("stalled-consumer scenario: start failed: %v", err)
+		return
+	}
+	defer svc.Close()
+	host := fmt.Sprintf("http://%s", svc.Addr().String())
+	post := func(q string, id int) int {
+		resp, err := http.Post(host+"/db/execute?queue"+q, "application/json", strings.NewReader(fmt.Sprintf(`["INSERT INTO t(v) VALUES(%d)"]`, id)))
+		if err != nil {
+			return -1
+		}
+		resp.Body.Close()
+		return resp.StatusCode
+	}
+	replay := map[string]interface{}{"scenario": "batch size 8, timeout 5 ms; Execute fails twice (2 s); request 1, 40 ms, request 2, 40 ms, request 3 with wait (10 s); no further requests"}
+	s1 := post("", 1)
+	time.Sleep(40 * time.Millisecond) // its timer fires; the consumer takes it and starts failing
+	s2 := post("", 2)
+	time.Sleep(40 * time.Millisecond) // its timer fires; it sits in the output slot
+	s3 := post("&wait&timeout=10s", 3) // partial batch; its timer expires while the slot is full
+	mu.Lock()
+	got := append([]int(nil), appliedStmts...)
+	mu.Unlock()
+	if s1 != 200 || s2 != 200 {
+		rep.Fail("queued-request-rejected", fmt.Sprintf("statuses %d %d", s1, s2), replay)
+		return
+	}
+	if s3 == 408 {
+		time.Sleep(1500 * time.Millisecond)
+		mu.Lock()
+		got = append([]int(nil), appliedStmts...)
+		mu.Unlock()
+		rep.Fail("wait-timed-out-statements-stranded", fmt.Sprintf("the waiter of request 3 got 408 after 10 s although Execute has been succeeding since ~2 s; applied so far: %s", c23Ints(got)), replay)
+		return
+	}
+	if s3 != 200 {
+		rep.Fail("queued-request-rejected", fmt.Sprintf("status %d", s3), replay)
+		return
+	}
+	if c23Ints(got) != "1,2,3" {
+		rep.Fail("applied-out-of-acceptance-order", fmt.Sprintf("stalled-consumer scenario: applied %s when the waiter returned, want 1,2,3", c23Ints(got)), replay)
+	}
+	rep.Case("stalled-consumer", true)
+	rep.Count("stalled-consumer-scenario")
 }
 
 // c23LostAck: Execute applies the batch but reports raft's "leadership lost while committing
